@@ -6,6 +6,7 @@ import z3
 from . import strops
 from .state import ExcInfo, Place
 from .symex import Entity, cond_fingerprint, normal
+from .types import snth, sunit
 from .types import (TBool, TFun, TInt, TMap, TNone, TOpaque, TOpt, TRef, TSeq, TStr,
                     TTuple, TUnion, parse_type)
 from .values import (NONE, SV, OutsideSubset, TBottom, TypeMismatch, box, coerce, fresh,
@@ -41,6 +42,15 @@ class StmtMixin:
         if m is None:
             raise OutsideSubset('statement ' + type(s).__name__)
         self.cur_line = getattr(s, 'lineno', None)
+        c = self.contract
+        if c is not None and c.asserts and self.spec_depth == 0 and self.inline_depth == 0:
+            kind = type(s).__name__
+            for a in c.asserts:
+                if a.stmt == kind and self.stmt_ordinals.get(id(s)) == a.nth:
+                    self.asserts_seen.add(id(a))
+                    t = self.eval_contract_expr(st, a.expr, None, self.pre_state)
+                    self.oblige(st, t, 'assert', a.label, carries=a.carries, node=s,
+                                info={'claim': 'at %s #%d: %s' % (kind, a.nth, a.expr)})
         return m(st, s)
 
     def exec_Pass(self, st, s):
@@ -240,7 +250,7 @@ class StmtMixin:
             for i, t in enumerate(elts):
                 nxt = []
                 for cur in states:
-                    nxt.extend(self.assign(cur, t, unbox(v.ty.elem, v.t[i]), node))
+                    nxt.extend(self.assign(cur, t, unbox(v.ty.elem, snth(v.ty.elem, v.t, i)), node))
                 states = nxt
             return states
         if v.ty == TStr or v.ty == TInt:
@@ -391,7 +401,7 @@ class StmtMixin:
         self.oblige(st, has, 'safety', 'dict-key', node=node, info={'claim': 'key present for del (KeyError)'})
         kk = box(coerce(key, cont.ty.k, self.classes))
         keys = cont.ty.keys(cont.t)
-        i = z3.IndexOf(keys, z3.Unit(kk), 0)
+        i = z3.IndexOf(keys, sunit(cont.ty.k, kk), 0)
         n = z3.Length(keys)
         nkeys = z3.Concat(z3.SubSeq(keys, 0, i), z3.SubSeq(keys, i + 1, n - i - 1))
         self.write_place(st, pl, SV(cont.ty, cont.ty.mk(nkeys, cont.ty.vals(cont.t))), node)
@@ -410,10 +420,10 @@ class StmtMixin:
             st.mark(fpr + ':F')
             return None, st
         a = st.copy()
-        a.assume(c)
+        a.assume(cond)
         a.mark(fpr + ':T')
         b = st
-        b.assume(z3.Not(c))
+        b.assume(z3.Not(cond))
         b.mark(fpr + ':F')
         if not self.feasible(a):
             a = None
@@ -764,12 +774,12 @@ class StmtMixin:
         if isinstance(ty, TSeq):
             if ty.elem is TBottom:
                 return IterSrc(z3.IntVal(0), lambda s, i: NONE)
-            return IterSrc(z3.Length(it.t), lambda s, i, it=it: self._closed(s, unbox(ty.elem, it.t[i])))
+            return IterSrc(z3.Length(it.t), lambda s, i, it=it: self._closed(s, unbox(ty.elem, snth(ty.elem, it.t, i))))
         if ty == TStr:
             return IterSrc(z3.Length(it.t), lambda s, i, it=it: SV(TStr, z3.SubString(it.t, i, 1)))
         if isinstance(ty, TMap):
             keys = ty.keys(it.t)
-            return IterSrc(z3.Length(keys), lambda s, i: unbox(ty.k, keys[i]))
+            return IterSrc(z3.Length(keys), lambda s, i: unbox(ty.k, snth(ty.k, keys, i)))
         if isinstance(ty, TRef) and ty.cls.startswith('list:'):
             items = self.read_field(st, it, ty.cls, 'items')
             src = self.iter_source(st, items, node)
@@ -876,7 +886,7 @@ class StmtMixin:
         keys0 = mty.keys(m0.t)
 
         def elem(s, i):
-            k = unbox(mty.k, keys0[i])
+            k = unbox(mty.k, snth(mty.k, keys0, i))
             if what == 'keys':
                 return k
             m = getm(s)
